@@ -2,7 +2,7 @@
    cycles of the exact product and normalised, for products up to 2^52 - 2 (no underflow in the Dekker product). *)
 From Coq Require Import ZArith Reals Psatz Floats.
 From Flocq Require Import Core BinarySingleNaN PrimFloat Relative.
-From PB Require Import Proofs.TwoSumExact Model.Phase2 Proofs.Floor Proofs.DayFrac Proofs.DayFrac3 Proofs.DayFracTail
+From PB Require Import Proofs.TwoSumExact Model.Phase2 Proofs.Floor Proofs.DayFrac Proofs.DayFrac3 Proofs.DayFracTail Proofs.DayFracFold
   Proofs.PhaseCmp Proofs.TwoProduct.
 Open Scope R_scope.
 
@@ -35,7 +35,7 @@ Theorem phase_mul_sound (i f fac : PrimFloat.float) :
   let '(d, g) := day_frac_gen i f (Some fac) None in
   fin d /\ fin g /\ (exists k : Z, R_of d = IZR k) /\
   Rabs (R_of d + R_of g - V * R_of fac) <= bpow radix2 (-52) /\
-  Rabs (R_of g) <= / 2 + bpow radix2 (-50).
+  Rabs (R_of g) <= / 2.
 Proof.
   intros Fi Ff Ffac Bi Bf Bfac V HV Hfac HT. unfold day_frac_gen.
   assert (b52 : 1 <= bpow radix2 52) by (change 1 with (bpow radix2 0); apply bpow_le; lia).
